@@ -470,8 +470,9 @@ K_REFRESH = dict(name="K-core::screen", package="rustzx-core", features="full",
                  assumptions=CORE_ASSUME + ["libm::sqrt stubbed while constructing the controller",
                      "ram_page_data replaced by 4-byte stand-in pages and ZXScreen::update by a call recorder: the harness proves the call structure of refresh (every byte of banks 0 / 5 and 7 is forwarded with its bank and offset) for all page contents and paging states; the loop is parametric in the slice length; update's effect is its Verus contract"])
 
-K_VTXLOAD = dict(name="K-vtx::load", package="vtx", harnesses=["vtx_load_header"], jobs=1, timeout=3000,
-                 bounded={"vtx_load_header": "every 16-byte header x 7 enumerated strings blocks + 5 header truncations; declared frame size 0 / rejected (LH5 payload excluded)"},
+K_VTXLOAD = dict(name="K-vtx::load", package="vtx", harnesses=["vtx_load_header", "vtx_load_strings"], jobs=2, timeout=2400,
+                 bounded={"vtx_load_header": "7 enumerated header variants (control bytes concrete, stored bytes symbolic); declared frame size 0 / rejected (LH5 payload excluded)",
+                          "vtx_load_strings": "7 enumerated strings blocks + 5 header truncations behind a well-formed header"},
                  functions={"*": ["Vtx::load (header, strings block)"]},
                  assumptions=["delharc LH5 decoder not verified"])
 
